@@ -40,7 +40,10 @@ func init() {
 		}
 		// fallible methods of the source struct (alone, behind nil-guarded paths, and feeding `map … | FUNC`)
 		e.rep.Rule += "; plus converters whose fields are fed by (fallible) methods of the source struct, directly, through value and pointer paths and as the source of a `map … | FUNC` function, inside slices and maps of pointers, under the three wrapping modes"
-		return runFamilies(e, "C07", "source-methods", famMethods, b, per, 8, nil, nil)
+		if err := runFamilies(e, "C07", "source-methods", famMethods, b, per, 8, nil, nil); err != nil {
+			return err
+		}
+		return c07Recursive(e) // w10_c07.go
 	}
 	campaigns["C11"] = func(e *env) error {
 		e.rep.Rule = "cases = (converter, method, source): (a) methods with `default FUNC` over the four pointer shapes (T->U, *T->*U, T->*U, *T->U) with constructors returning a value or a pointer, with/without source argument and error result, combined with default:update at converter and method level, ignored fields and useZeroValueOnPointerInconsistency; constructors return a recognisable value (numbers 7, strings \"ctor\"); (b) random structural converters with pointer perturbations, and the PINNED pointer matrix: every pair of T, *T, **T on either side x {top level, struct field, slice element, map value} x inner type {int, struct, slice, map; thorough: also string, slices of pointers, maps of slices} x flag on/off. Executed on nil and non-nil sources; compared with Gv.Gen + Gv.Eval. non-trivial = every call; distinct = (converter, method, source)"
@@ -105,7 +108,10 @@ func init() {
 			return err
 		}
 		e.rep.Rule += "; plus one enum pair converted by two converters of one run, one of which excludes it (enum:exclude, enum no at converter or method level): detection is per converter and method"
-		return runFamilies(e, "C08", "enum-off", famEnumOff, 1, 12, 6, nil, nil)
+		if err := runFamilies(e, "C08", "enum-off", famEnumOff, 1, 12, 6, nil, nil); err != nil {
+			return err
+		}
+		return w10C08(e)
 	}
 }
 
